@@ -50,7 +50,8 @@ P = {
     "rule": "stream histories: histories of 2 to 17 executions of REAL caching mechanisms (oauth2_introspection and generic authenticators, "
             "remote authorizer, generic contextualizer) created by the real mechanism factory from a generated prototype (0-3 endpoint "
             "headers, 0-3 values, api-key/basic/client-credentials auth strategies, templated URL/headers/payload, forwarded "
-            "headers/cookies, response headers handed on to the upstream service, session_lifespan, ttl unset/positive/0), optionally a "
+            "headers/cookies, response headers handed on to the upstream service (both header-name lists in canonical, lower and mixed "
+            "case), session_lifespan, ttl unset/positive/0), optionally a "
             "rule-level reconfiguration (scope and audience assertions, expressions, payload, values, ttl, forwarded names) and a "
             "near-copy sibling prototype (different id; id/payload, header name/value, api-key, basic-auth, client-credential fields "
             "shifted across their boundaries; url, method, payload, forwarded names, session lifespan changed); about a third of the histories mix "
